@@ -30,6 +30,7 @@ import (
 	"errors"
 	"fmt"
 	"math"
+	"math/big"
 	"math/rand"
 	"net/url"
 	"reflect"
@@ -497,6 +498,20 @@ func filterFloatformat(in *Value, param *Value) (*Value, *Error) {
 		// want the output being trimmed
 		decimals = -decimals
 		trim = true
+	}
+
+	if math.Abs(val) >= 1<<53 {
+		// A float64 holds 53 bits of an integer: a larger one (an id, a byte count) given
+		// exactly - as an integer of any kind, or as text that consists of digits - keeps
+		// its digits, the zeroes are appended to them.
+		if n, ok := new(big.Int).SetString(in.String(), 10); ok && (in.IsInteger() || in.IsString()) {
+			if trim || decimals <= 0 {
+				return AsValue(n.String()), nil
+			}
+			if decimals <= maxFloatFormatDecimals {
+				return AsValue(n.String() + "." + strings.Repeat("0", decimals)), nil
+			}
+		}
 	}
 
 	if trim {
